@@ -16,6 +16,8 @@ var pbcmplErrExceptions = []errException{
 	{"pbcmpl.ReadHeader", "github.com/golang/protobuf/proto.Unmarshal", "*github.com/openacid/low/pbcmpl.header", "exactly fixedSize bytes -> encoding/binary.Read of a fixed-size struct cannot fail (buffer length is fixedSize by R-HDRREAD)"},
 	{"pbcmpl.ReadHeader", "(*github.com/openacid/low/pbcmpl.header).Unmarshal", "*github.com/openacid/low/pbcmpl.header", "the same decode reached without the proto.Unmarshal indirection (proto.Unmarshal of a header calls exactly this method): exactly fixedSize bytes -> encoding/binary.Read cannot fail"},
 	{"pbcmpl.marshal", "(*github.com/openacid/low/pbcmpl.header).Marshal", "*github.com/openacid/low/pbcmpl.header", "the same encode reached without the proto.Marshal indirection: fixed-size struct -> encoding/binary.Write into a bytes.Buffer cannot fail"},
+	{"pbcmpl.Marshal", "github.com/golang/protobuf/proto.Marshal", "*github.com/openacid/low/pbcmpl.header", "the same belief site when the helper marshal is dissolved into Marshal"},
+	{"pbcmpl.Marshal", "(*github.com/openacid/low/pbcmpl.header).Marshal", "*github.com/openacid/low/pbcmpl.header", "the same belief site when the helper marshal is dissolved into Marshal"},
 }
 
 func isParamStream(fn *ssa.Function, idx int) func(ssa.Value) bool {
@@ -55,11 +57,12 @@ func derivesFromGlobal(v ssa.Value, pkg, name string) bool {
 }
 
 func runC07(c *Ctx, w *World, r *Report) {
-	fns, ok := requireFuncs(w, r, pbcmplFuncs...)
+	pbNames := dropMissingHelpers(w, pbcmplFuncs, "pbcmpl.marshal")
+	fns, ok := requireFuncs(w, r, pbNames...)
 	if g := w.Global("pbcmpl", "ErrInvalidHeaderSize"); g == nil {
 		r.Unknown("R-ANCHOR", "pbcmpl.ErrInvalidHeaderSize", "-", "error variable named by the property is missing")
 	}
-	n := ReportErrProp(w, r, pbcmplErrExceptions, pbcmplFuncs...)
+	n := ReportErrProp(w, r, pbcmplErrExceptions, pbNames...)
 	r.Units["error_returning_calls"] = n
 	if n < 8 {
 		r.Bad("R-ERRPROP", "floor", "-", fmt.Sprintf("only %d error-returning call sites found in the pbcmpl entry points (confirmed by hand: >= 8)", n))
@@ -545,7 +548,46 @@ func reportWriteOrder(w *World, r *Report, fn *ssa.Function) {
 		a0, a1 := ios[0].Call.Common().Args[0], ios[1].Call.Common().Args[0]
 		e0, ok0 := a0.(*ssa.Extract)
 		e1, ok1 := a1.(*ssa.Extract)
-		if !ok0 || !ok1 || e0.Tuple != e1.Tuple {
+		// with the helper marshal dissolved into Marshal the two buffers are the results of two proto.Marshal calls: the
+		// one of the header (argument built by newHeader) and the one of the message (R-DECL decides which is which)
+		dissolved := false
+		if ok0 && ok1 && e0.Tuple != e1.Tuple {
+			isHdr := func(t ssa.Value) bool {
+				c, ok := t.(*ssa.Call)
+				if !ok || !strings.HasSuffix(calleeName(c.Common()), "proto.Marshal") {
+					return false
+				}
+				mi, ok := c.Common().Args[0].(*ssa.MakeInterface)
+				if !ok {
+					return false
+				}
+				nh, ok := mi.X.(*ssa.Call)
+				return ok && nh.Common().StaticCallee() != nil && nh.Common().StaticCallee().Name() == "newHeader"
+			}
+			isMsg := func(t ssa.Value) bool {
+				c, ok := t.(*ssa.Call)
+				return ok && strings.HasSuffix(calleeName(c.Common()), "proto.Marshal") && len(fn.Params) > 1 && c.Common().Args[0] == ssa.Value(fn.Params[1])
+			}
+			first, second := ios[0], ios[1]
+			f0, f1 := e0, e1
+			if !instrDominates(first.Call, second.Call) {
+				first, second = second, first
+				f0, f1 = f1, f0
+			}
+			if f0.Index == 0 && f1.Index == 0 && isHdr(f0.Tuple) && isMsg(f1.Tuple) {
+				dissolved = true
+				errs := map[ssa.CallInstruction]ssa.Value{}
+				for _, es := range errorCalls(fn) {
+					errs[es.Call] = es.Err
+				}
+				if e := errs[first.Call]; e == nil || nilnessUnder(w.FA(fn).Conds(second.Call.Block()), e) != -1 {
+					bad = "the body is written even if the header write failed"
+				}
+			}
+		}
+		if dissolved {
+			// checked above
+		} else if !ok0 || !ok1 || e0.Tuple != e1.Tuple {
 			bad = "the two writes do not emit the two results of one marshal() call"
 		} else {
 			first, second := ios[0], ios[1]
